@@ -2,20 +2,20 @@ SPECIFICATION Spec
 CONSTANTS
   MaxSize = 5
   MaxBlocks = 3
-  Inits = "partial"
-  KindMode = "alt"
+  Inits = "full"
+  KindMode = "one"
   AlignVals = {}
   MaxAligned = 0
-  ItemMode = "dense"
+  ItemMode = "none"
   MaxItems = 0
   Addrs = {"4096"}
-  Grows = {}
+  Grows = {1, 2, 3}
   Lates = FALSE
-  AddAligns = {}
-  OnlyTiled = FALSE
-  NopKinds = {"1", "4", "u"}
-  VariantSet = "uninit"
-  Rotate = 2
+  AddAligns = {4, 8, 16}
+  OnlyTiled = TRUE
+  NopKinds = {"1"}
+  VariantSet = "alpatch"
+  Rotate = 0
   Emit = TRUE
 INVARIANT Inv
 CHECK_DEADLOCK FALSE
